@@ -592,10 +592,19 @@ func normAtom(t *Term, nilness func(*Term) int) Atom {
 		// which literal a function variable holds: decided when the store knows
 		if v := t.Args[0]; v.Op == "closure" {
 			return mkc(v.Name == t.Name)
-		} else if v.isConst() && v.Name == "nil" {
+		} else if v.Op == "fn" || (v.isConst() && v.Name == "nil") {
 			return mkc(false)
 		}
 		return Atom{Key: "Truth(isclosure:" + t.Name + "(" + t.Args[0].Key() + "))", Pol: pol}
+	}
+	if t.Op == "isfn" {
+		// which named function a function variable holds
+		if v := t.Args[0]; v.Op == "fn" {
+			return mkc(v.Name == t.Name)
+		} else if v.Op == "closure" || (v.isConst() && v.Name == "nil") {
+			return mkc(false)
+		}
+		return Atom{Key: "Truth(isfn:" + t.Name + "(" + t.Args[0].Key() + "))", Pol: pol}
 	}
 	if t.Op == "typeis" {
 		if dt, ok := dynType(t.Args[0]); ok && len(t.Fields) == 0 {
